@@ -305,10 +305,10 @@ func runC30LeastConnections(r *Run) {
 		return m
 	}
 	done := false
-	rounds := 1 + r.W.Pick(3)
+	rounds := 2 + r.W.Pick(8)
 	w.s.GoNamed("lc-script", func() {
 		defer func() { done = true }()
-		rest := func() { simrt.Sleep(300*time.Millisecond, "c30.rest") }
+		rest := func() { simrt.Sleep(100*time.Millisecond, "c30.rest") }
 		for round := 0; round < rounds; round++ {
 			// two links at rest, one per backend
 			a := connect()
@@ -317,8 +317,15 @@ func runC30LeastConnections(r *Run) {
 			rest()
 			// the same instant: a (alone on its backend) closes while b connects
 			r.Op("close-while-connecting")
-			simrt.Go(func() { _ = a.c.conn.Close(); a.open = false })
-			for i, n := 0, r.W.Pick(6); i < n; i++ {
+			ja, jb := r.W.Pick(120), r.W.Pick(120) // where in each other's processing the two meet
+			simrt.Go(func() {
+				for i := 0; i < ja; i++ {
+					simrt.Yield("c30.lc-jitter")
+				}
+				_ = a.c.conn.Close()
+				a.open = false
+			})
+			for i := 0; i < jb; i++ {
 				simrt.Yield("c30.lc-jitter")
 			}
 			connect()
